@@ -1041,3 +1041,141 @@ fn c18(cx: &RunCtx, known: &Known) -> Verdict {
     }
     Verdict { violations: tot.viol, known_lines, inconclusive, evidence: ev, known_samples: vec![] }
 }
+
+// =====================================================================================  C19 (E2 part)
+/// Round trips through the crate's generic serde paths with *other* element/member types than the ones the
+/// simulated histories use: optional and unit values, strings, byte vectors, tuples, nested CRDTs and values that
+/// themselves contain integer-keyed maps. States are built by two actors with concurrent edits and out-of-order
+/// delivery (orphans, nested identifiers), serialised, restored, compared (==, JSON again) and continued.
+pub fn serde_types(seed: u64, rounds: u64) -> (u64, u64, Vec<Finding>, Vec<serde_json::Value>) {
+    use crdts::merkle_reg::MerkleReg;
+    use crdts::{GList, List, MVReg, Orswot};
+    use serde::{de::DeserializeOwned, Serialize};
+    let mut evals = 0u64;
+    let mut distinct: HashSet<u64> = HashSet::new();
+    let mut viol: Vec<Finding> = vec![];
+    let mut samples = vec![];
+    fn rt<T: Serialize + DeserializeOwned + PartialEq + std::fmt::Debug>(what: &str, x: &T, viol: &mut Vec<Finding>, seed: u64) -> Option<T> {
+        let js = match serde_json::to_string(x) {
+            Ok(j) => j,
+            Err(e) => {
+                viol.push(finding("serde_types", what, format!("{what}: serialising failed: {e}; value {x:?}"), seed));
+                return None;
+            }
+        };
+        match serde_json::from_str::<T>(&js) {
+            Err(e) => {
+                viol.push(finding("serde_types", what, format!("{what}: does not deserialise: {e}; json {js}"), seed));
+                None
+            }
+            Ok(back) => {
+                // (JSON text is not compared: hash-map iteration order is free to differ)
+                if &back != x || dump(&back) != dump(x) {
+                    viol.push(finding("serde_types", what, format!("{what}: round trip differs\n   before {x:?}\n   after  {back:?}"), seed));
+                }
+                Some(back)
+            }
+        }
+    }
+    // generic List scenario over the value type
+    fn list_case<T: Clone + Serialize + DeserializeOwned + PartialEq + std::fmt::Debug>(what: &str, vals: &[T], rng: &mut Rng, viol: &mut Vec<Finding>, seed: u64, evals: &mut u64, distinct: &mut HashSet<u64>) {
+        let mut a: List<T, u8> = List::new();
+        let mut b: List<T, u8> = List::new();
+        let mut ops_a = vec![];
+        let mut ops_b = vec![];
+        for i in 0..(3 + rng.below(5)) {
+            let v = vals[rng.below(vals.len())].clone();
+            if rng.chance(1, 2) {
+                let ix = rng.below(a.len() + 1);
+                let op = if a.len() > 1 && rng.chance(1, 5) { a.delete_index(rng.below(a.len()), 1).unwrap() } else { a.insert_index(ix, v, 1) };
+                a.apply(op.clone());
+                ops_a.push(op);
+            } else {
+                let ix = rng.below(b.len() + 1);
+                let op = b.insert_index(ix, v, 2);
+                b.apply(op.clone());
+                ops_b.push(op);
+            }
+            if i % 3 == 2 {
+                for op in ops_b.drain(..) {
+                    rt(&format!("{what} op"), &op, viol, seed);
+                    a.apply(op);
+                }
+                for op in ops_a.drain(..) {
+                    b.apply(op);
+                }
+            }
+            *evals += 1;
+            distinct.insert(dhash(&dump(&a)));
+            if let Some(mut back) = rt(what, &a, viol, seed) {
+                // the restored replica must continue identically
+                let v = vals[rng.below(vals.len())].clone();
+                let op1 = a.insert_index(0, v.clone(), 1);
+                let op2 = back.insert_index(0, v, 1);
+                if op1 != op2 {
+                    viol.push(finding("serde_types", what, format!("{what}: restored replica generates a different op: {op1:?} vs {op2:?}"), seed));
+                }
+            }
+        }
+    }
+    let mut rng = Rng::new(mix(seed, 9191));
+    for _ in 0..rounds {
+        list_case("List<Option<u32>>", &[None, Some(1), Some(2), None, Some(0)], &mut rng, &mut viol, seed, &mut evals, &mut distinct);
+        list_case("List<()>", &[(), ()], &mut rng, &mut viol, seed, &mut evals, &mut distinct);
+        list_case("List<String>", &["".to_string(), "a".to_string(), "\"q\\\n".to_string(), "é".to_string()], &mut rng, &mut viol, seed, &mut evals, &mut distinct);
+        list_case("List<Vec<u8>>", &[vec![], vec![0], vec![255, 1, 2]], &mut rng, &mut viol, seed, &mut evals, &mut distinct);
+        list_case("List<(u8,i64)>", &[(0, -1), (7, i64::MIN), (7, i64::MAX)], &mut rng, &mut viol, seed, &mut evals, &mut distinct);
+        {
+            // values that are CRDTs containing integer-keyed clocks
+            let mut r1: MVReg<u32, u8> = MVReg::new();
+            let mut r2: MVReg<u32, u8> = MVReg::new();
+            r1.apply(r1.write(5, r1.read_ctx().derive_add_ctx(1)));
+            r2.apply(r2.write(6, r2.read_ctx().derive_add_ctx(2)));
+            let mut r12 = r1.clone();
+            r12.merge(r2.clone());
+            list_case("List<MVReg<u32,u8>>", &[r1, r2, r12, MVReg::new()], &mut rng, &mut viol, seed, &mut evals, &mut distinct);
+            let m: BTreeMap<u8, u8> = [(1, 2), (3, 4)].into_iter().collect();
+            list_case("List<BTreeMap<u8,u8>>", &[m, BTreeMap::new()], &mut rng, &mut viol, seed, &mut evals, &mut distinct);
+        }
+        // Orswot with other member types
+        {
+            let mut s: Orswot<String, u8> = Orswot::new();
+            for m in ["x", "", "y z"] {
+                s.apply(s.add(m.to_string(), s.read_ctx().derive_add_ctx(rng.below(3) as u8)));
+                evals += 1;
+                rt("Orswot<String>", &s, &mut viol, seed);
+            }
+            let op = s.rm("x".to_string(), s.contains(&"x".to_string()).derive_rm_ctx());
+            rt("Orswot<String> op", &op, &mut viol, seed);
+            // member types that serde_json cannot use as object keys (tuples, options) are not exercised: that is a
+            // limitation of the JSON representation the crate chose for `entries`, of the same family as R5
+        }
+        // GList / MerkleReg with strings and byte vectors, delivered out of order (orphans)
+        {
+            let mut g: GList<String> = GList::new();
+            for v in ["b", "a", "", "a"] {
+                let ix = rng.below(g.len() + 1);
+                g.apply(g.insert(ix, v.to_string()));
+                evals += 1;
+                rt("GList<String>", &g, &mut viol, seed);
+            }
+            let mut mk: MerkleReg<Vec<u8>> = MerkleReg::new();
+            let n1 = mk.write(vec![1], Default::default());
+            let n2 = mk.write(vec![], [n1.hash()].into_iter().collect());
+            let n3 = mk.write(vec![9, 9], [n2.hash()].into_iter().collect());
+            for n in [n3, n1, n2] {
+                mk.apply(n.clone());
+                evals += 1;
+                distinct.insert(dhash(&dump(&mk)));
+                rt("MerkleReg<Vec<u8>>", &mk, &mut viol, seed);
+                rt("MerkleReg node", &n, &mut viol, seed);
+            }
+        }
+        if viol.len() > 8 {
+            break;
+        }
+    }
+    samples.push(json!({"serde_types": ["List<Option<u32>>", "List<()>", "List<String>", "List<Vec<u8>>", "List<(u8,i64)>", "List<MVReg<u32,u8>>", "List<BTreeMap<u8,u8>>", "Orswot<String>", "GList<String>", "MerkleReg<Vec<u8>>"]}));
+    viol.truncate(6);
+    (evals, distinct.len() as u64, viol, samples)
+}
